@@ -445,7 +445,7 @@ func (e *Env) index(a, i Val) Val {
 		}
 	case KSlice:
 		et := a.T.Underlying().(*types.Slice).Elem()
-		return e.vc.load(e.st, &Loc{Kind: locElem, Ref: a.Sl[0], Idx: bvAdd(a.Sl[1], idx), Base: et})
+		return e.vc.load(e.st, &Loc{Kind: locElem, Ref: a.Sl[0], Idx: elemIdx(a.Sl[1], idx), Base: et})
 	case KArray:
 		et := a.T.Underlying().(*types.Array).Elem()
 		return unflatten(et, []string{sel(a.S, idx)})
